@@ -31,6 +31,10 @@ PARAM_DICTS = {"params", "states"}
 
 
 def check(repo, col, tier):
+    # set / make_trainable / data_set address the base with the row labels of the view's tables (shared with C11)
+    from . import c11 as _c11l
+    col.rule("R-C10-labels", "a table of a view that is re-derived from itself keeps its row labels", 3)
+    _c11l.table_labels(repo, col, "R-C10-labels")
     col.rule("R-C10-rows", "row selection = in-view rows of the owning table where the key is set", 6)
     col.rule("R-C10-scatter", "index space of the scatter == position space of the array", 3)
     col.rule("R-C10-sentinel", "padded index reaches a scatter only through mode='drop' + remap", 2)
@@ -102,6 +106,29 @@ def sharing_keys(repo, col, R):
             known.add(c_)
     if not {"comp", "branch", "cell"} <= known:
         raise AnalysisError(f"_set_controlled_by_param: the kinds it numbers were not recognised ({sorted(known)})")
+    # the kinds whose rows can stand in ANY order and with repetitions (`select(nodes=[5, 2])`, `edge([3, 1])`) give one parameter per row
+    # and number the rows by POSITION: make_trainable groups by this number and `groupby` sorts its keys, so positions keep the row order
+    # (`init_val=[a, b]` meets rows 5, 2 in this order, like `set()` does); row labels would hand the values out in sorted label order
+    for kind_ in ("filter", "edge"):
+        if kind_ not in known:
+            continue
+        for s_ in any_store:
+            if not all(idx.guard_truth(g, kp, kind_) is not False for g in s_.guards) or any(idx.guard_truth(g, kp, kind_) is None for g in s_.guards if False):
+                continue
+            if not any(idx.guard_truth(g, kp, kind_) is True for g in s_.guards):
+                continue
+            v = idx.shape_norm(s_.value)
+            if v.op == "const":
+                continue   # the table this kind does not number (one group)
+            tbl = T.find(s_.base, lambda x: x.op == "attr" and x.name in ("nodes", "edges"))
+            want = "_nodes_in_view" if (tbl is not None and tbl.name == "nodes") else "_edges_in_view"
+            positional = v.op == "mcall" and v.name == "arange" and len([a_ for a_ in v.args if a_.op != "free"]) == 1 and \
+                T.find(v, lambda x: x.op == "call" and x.name == "len" and T.find(x, lambda y: y.op == "attr" and y.name == want) is not None) is not None
+            col.check(positional, R, fi, f"'{kind_}' selections number their {tbl.name if tbl is not None else 'rows'} by position (one trainable per row, in row order)",
+                      "np.arange(len(table))",
+                      f"the rows are numbered with `{v.short(60)}`: make_trainable groups by this number in SORTED order, so for a selection in another "
+                      f"order (`select(nodes=[5, 2])`) the k-th created parameter is no longer the k-th selected row: `init_val=[a, b]` and "
+                      f"`set(key, [a, b])` put the values on different rows", node=s_.node)
     n_calls = 0
     for f in repo.all_functions():
         if not f.file.startswith("jaxley/modules/"):
